@@ -1,4 +1,5 @@
 import Rare.Model.C03Reduce
+import Rare.Model.C13Lower
 /-!
 Model of the five counting commands' functions (`histoFunction`, `tabulateFunction`, `heatmapFunction`, `sparkFunction`,
 `bargraphFunction`) on top of the aggregator models of C07, the CSV writers of `Model/C03` and the sorter names of C13.
@@ -13,23 +14,52 @@ What the final render's footer, the histogram's rows, `--csv` and the exit statu
 rows (padding, bars, colours) is C14/C20; here is WHICH rows, numbers and counters reach the screen. -/
 
 /-- `helpers.BuildSorter(fullName)` for the names whose comparator is a pure function of the two rows: `text` and `value`
-with any modifier (C13 `parseSort` / `lookupMode` / `modeSorter`, `Reverse`). -/
+with any modifier (C13 `parseSort` / `lookupMode` / `modeSorter`, `Reverse`).  `lowerK` is C13's look-up equivalent of
+`strings.ToLower` for ALL byte strings (`Props/C13 to_lower_lookup`): sort names are case-insensitive. -/
 def pureSortLess (fullName : Bytes) : Option (NV → NV → Bool) :=
-  match parseSort asciiLower fullName with
+  match parseSort lowerK fullName with
   | .error _ => none
   | .ok (name, rev) =>
-    match lookupMode asciiLower name with
+    match lookupMode lowerK name with
     | some .text =>
       some fun a b => ((if rev then C13.reverse (valueNilSorter (pureCmp byName)) else valueNilSorter (pureCmp byName)) () a b).1
     | some .value =>
       some fun a b => ((if rev then C13.reverse (valueSorterEx (pureCmp byName)) else valueSorterEx (pureCmp byName)) () a b).1
     | _ => none
 
-/-- `helpers.SortsByValue(fullName)`: `name, _, err := parseSort(fullName); return err == nil && name == "value"` -/
+/-- `helpers.SortsByValue(fullName)`: `name, _, err := parseSort(fullName); return err == nil && name == "value"` – the
+SAME spelling rule as `BuildSorter` (both go through `parseSort`): `VALUE`, `Value:asc` … are value-ordered. -/
 def sortsByValue (fullName : Bytes) : Bool :=
-  match parseSort asciiLower fullName with
+  match parseSort lowerK fullName with
   | .ok (name, _) => name == asc "value"
   | .error _ => false
+
+/-- `SortsByValue` with `strings.ToLower = lower` -/
+def sortsByValueWith (lower : Bytes → Bytes) (fullName : Bytes) : Bool :=
+  match parseSort lower fullName with
+  | .ok (name, _) => name == asc "value"
+  | .error _ => false
+
+/-- which comparator `BuildSorter(fullName)` builds: `none` = an error (`logger.Fatal`, exit 2); else
+`(ordered by value, reversed)` -/
+def builtSorter (lower : Bytes → Bytes) (fullName : Bytes) : Option (Bool × Bool) :=
+  match parseSort lower fullName with
+  | .error _ => none
+  | .ok (name, rev) =>
+    match lookupMode lower name with
+    | some .value => some (true, rev)
+    | some _ => some (false, rev)
+    | none => none
+
+/-- what the built sorter answers on the row pairs (a,1)<(b,2), (b,2)<(a,1), (a,2)<(b,1), (b,1)<(a,2) (op `sbv`) -/
+def sorterSignature (byValue rev : Bool) : List Bool :=
+  let base : SCmp NV Unit := if byValue then valueSorterEx (pureCmp byName) else valueNilSorter (pureCmp byName)
+  let c := if rev then C13.reverse base else base
+  let a1 : NV := ⟨[97], 1⟩
+  let b2 : NV := ⟨[98], 2⟩
+  let a2 : NV := ⟨[97], 2⟩
+  let b1 : NV := ⟨[98], 1⟩
+  [(c () a1 b2).1, (c () b2 a1).1, (c () a2 b1).1, (c () b1 a2).1]
 
 /-- `writeHistoOutput`: `items := counter.ItemsSortedBy(count, sorter)` (sort all groups, keep the first `count`), then the
 rows whose count is at least `--atleast`, on consecutive lines. -/
